@@ -18,11 +18,17 @@ RULE = (
     "sibling on the other worker, 1x2) x faults: API error / unsuccessful result "
     "under on-error=abort, connection error under on-error=continue, parameter source raises, runner raises (each at the first, a middle and "
     "the last request of a step), driver metrics store raises on the n-th write (periodic tick and step boundaries), a track-preparation task "
-    "raises, a worker process dies (at every scheduling point), user cancellation (at every scheduling point); schedules: all within the "
+    "raises, a worker process dies (at every scheduling point), user cancellation (at every scheduling point); a second set of fault specs "
+    "(@rc) runs the REAL racecontrol.BenchmarkActor with its coordinator, the real MechanicActor of an externally provisioned cluster and the "
+    "real DriverActor created by it, the environment being racecontrol.race() (ask Setup, first answer = outcome, tell exit), plus failures of "
+    "race control's own metrics store at the n-th hand-over; schedules: all within the "
     "deviation bound (the environment faults consume the deviation). non-trivial = every execution (each has a fault); distinct = (config, fault, choices)"
 )
 ASSUMPTIONS = [
-    "race control = environment replaying BenchmarkActor's handlers around the real BenchmarkCoordinator; summary reporter replaced by a recorder",
+    "race control = environment replaying BenchmarkActor's handlers around the real BenchmarkCoordinator, or (@rc specs) the real BenchmarkActor "
+    "itself with racecontrol.race() as the environment; summary reporter replaced by a recorder",
+    "a user cancellation takes effect when the benchmark actor handles BenchmarkCancelled; a worker that dies or a cancellation that takes "
+    "effect after the benchmark actor has handled BenchmarkComplete (results already stored) is not a fault during the race",
     "bounded time = failure reaches race control within 40 virtual seconds of the fault (8 worker wake-up intervals) on every explored schedule",
 ]
 
@@ -88,6 +94,21 @@ def fault_specs(tier):
         out.append((s, "cancel", 0))
     # the driver's metrics store fails during the *periodic* post-processing (the load generators keep running), and the user cancels:
     # race control tears the actor system down only after a while, so a BenchmarkComplete may still arrive after the notification
+    # the same with the REAL race control actor (and the real mechanic actor of an externally provisioned cluster) on top of the driver
+    for s in ("S1", "S5b"):
+        for kind in ("api-abort", "unsuccessful-abort", "connection-error", "source-raises", "runner-raises"):
+            for where in ("first", "mid", "last") if (tier == "thorough" or s == "S1") else ("mid",):
+                out.append((s, kind + "@rc", where))
+        for n in (0, 7, "final"):
+            out.append((s, "store-raises@rc", n))
+        out.append((s, "prep-task-fails@rc", 0))
+        out.append((s, "worker-dies@rc", 0))
+        out.append((s, "cancel@rc", 0))
+    for n in range(0, 4):
+        out.append(("S1", "rc-store-raises@rc", n))
+    out.append(("S3", "api-abort@rc", "mid"))
+    out.append(("SL", "store-raises-late-teardown@rc", 2))
+    out.append(("S1", "cancel-late-teardown@rc", 0))
     for n in (0, 2, 5):
         out.append(("SL", "store-raises-late-teardown", n))
     out.append(("SL", "store-raises", 0))
@@ -171,6 +192,85 @@ class RealRaceControl(racesim.RaceControl):
             self.exit_sent = True
 
 
+class ActorRaceControl:
+    """the REAL racecontrol.BenchmarkActor (with its real BenchmarkCoordinator, the real MechanicActor for an externally provisioned
+    cluster and the real DriverActor below it) runs in the simulation; this object is only what racecontrol.race() is: it asks Setup,
+    takes the first answer as the outcome of the race and then tells the benchmark actor to exit"""
+
+    def __init__(self, sim, cfg, track):
+        s = racesim.setup()
+        from esrally import racecontrol, reporter
+        from esrally.mechanic import mechanic
+
+        self.sim, self.cfg, self.track = sim, cfg, track
+        self.summaries = []
+        reporter.summarize = lambda results, cfg_: self.summaries.append(results)
+        racecontrol.reporter.summarize = reporter.summarize
+        racecontrol.track.load_track = lambda cfg_, install_dependencies=False: track
+        mechanic.load_team = lambda cfg_, external: (None, [])
+        A = s["config"].Scope.application
+        cfg.add(A, "race", "pipeline", "benchmark-only")
+        cfg.add(A, "mechanic", "car.params", {})
+        cfg.add(A, "mechanic", "plugin.params", {})
+        cfg.add(A, "mechanic", "car.names", ["external"])
+        cfg.add(A, "mechanic", "distribution.version", "8.6.1")
+        cfg.add(A, "mechanic", "distribution.flavor", "default")
+        cfg.add(A, "mechanic", "repository.revision", "abc")
+        cfg.add(A, "track", "challenge.name", "c")
+        shutil_rm(os.path.join(racesim.scratch_dir(), "races"))
+        self.addr = sim.create_actor(racecontrol.BenchmarkActor, parent=sim.external)
+        self.received = []
+        self.phase = "init"
+        self.first_terminal = None
+        self.exit_sent = False
+        self.late_teardown = False
+        self.complete_after_terminal = False
+        self._racecontrol = racecontrol
+        self.delivered = []  # (message type, position in the trace, time) of everything the benchmark actor handles
+        sim.on_deliver = self._on_deliver
+
+    def _on_deliver(self, sim, receiver_key, msg):
+        from mc.actorsim import key
+
+        if receiver_key == key(self.addr):
+            self.delivered.append((type(msg).__name__, len(sim.trace), CLOCK.now))
+
+    def handled(self, name):
+        """trace position at which the benchmark actor handled its first message of that type (None: never)"""
+        for n, pos, _t in self.delivered:
+            if n == name:
+                return pos
+        return None
+
+    @property
+    def co(self):
+        from mc.actorsim import key
+
+        return self.sim.actors[key(self.addr)].inst.coordinator
+
+    def start(self):
+        self.sim.tell(self.addr, self._racecontrol.Setup(self.cfg, False, False, True, False))
+        self.phase = "running"
+
+    def on_message(self, now, msg):
+        import thespian.actors as ta
+
+        name = type(msg).__name__
+        self.received.append((now, name, msg))
+        if self.first_terminal is None and name in ("Success", "BenchmarkFailure", "BenchmarkCancelled", "PoisonMessage"):
+            kind = {"Success": "complete", "BenchmarkCancelled": "cancelled"}.get(name, "failed")
+            self.first_terminal = (kind, now)
+            self.phase = kind
+            if not self.late_teardown and not self.exit_sent:
+                # racecontrol.race(): finally -> tell the benchmark actor to exit
+                self.sim.tell(self.addr, ta.ActorExitRequest())
+                self.exit_sent = True
+
+    def user_cancels(self):
+        """KeyboardInterrupt in race(): BenchmarkCancelled is *asked* of the benchmark actor (the answer is awaited), then it is told to exit"""
+        self.sim.tell(self.addr, racesim.setup()["actor"].BenchmarkCancelled())
+
+
 def shutil_rm(p):
     import shutil
 
@@ -194,6 +294,8 @@ class FailingProcessor:
 def check_race(spec, ch, res):
     sname, kind, where = spec[:3]
     lp = len(spec) > 3 and bool(spec[3])  # line-level preemption of worker handlers by the executor thread
+    real = kind.endswith("@rc")  # the real BenchmarkActor / MechanicActor(external) on top of the driver instead of their emulation
+    kind = kind.replace("@rc", "")
     late = kind.endswith("-late-teardown")
     kind = kind.replace("-late-teardown", "")
     s = racesim.setup()
@@ -238,6 +340,7 @@ def check_race(spec, ch, res):
         def fire(sim):
             w = [k for k, r in sim.actors.items() if r.cls.__name__ == "Worker" and r.alive][0]
             state["fault_time"] = CLOCK.now
+            state["fault_pos"] = len(sim.trace)
             sim.kill_actor(w)
 
         faults.append(actorsim.Fault("worker-dies", enabled, fire))
@@ -259,9 +362,28 @@ def check_race(spec, ch, res):
         return rc
 
     total_requests = sum(t.clients * t.iterations for el in schedule for t in el if t.iterations)
+    def top_factory(sim, cfg, trk):
+        rc = ActorRaceControl(sim, cfg, trk)
+        rc.late_teardown = late
+        rc_holder["rc"] = rc
+        return rc
+
     # metrics store of the driver fails on its n-th write
     m = s["metrics"]
     orig_put = m.InMemoryMetricsStore.put_value_cluster_level
+    orig_bulk_add = m.InMemoryMetricsStore.bulk_add
+    if kind == "rc-store-raises":
+        # the metrics store of race control fails when it takes over the metrics of a step (n-th TaskFinished / BenchmarkComplete)
+        def failing_bulk_add(self, *a, **k):
+            sim = s.get("sim")
+            if sim is not None and sim.current_actor is not None and sim.actors[sim.current_actor].cls.__name__ == "BenchmarkActor":
+                state["store_calls"] += 1
+                if state["store_calls"] == where + 1:
+                    state["fault_time"] = CLOCK.now
+                    raise RuntimeError("injected race control metrics store failure")
+            return orig_bulk_add(self, *a, **k)
+
+        m.InMemoryMetricsStore.bulk_add = failing_bulk_add
     if kind == "store-raises":
 
         def failing_put(self, *a, **k):
@@ -286,9 +408,11 @@ def check_race(spec, ch, res):
     del loadgen.FIRED[:]
     try:
         r = racesim.run_race(schedule, hosts, cores, behaviour, ch, horizon=HORIZON, on_error=on_error, faults=faults,
-                             rc_factory=rc_factory, track_plugin_hook=hook, linger=90.0 if late else 0.0, line_preempt=lp)
+                             rc_factory=None if real else rc_factory, top_factory=top_factory if real else None, track_plugin_hook=hook,
+                             linger=90.0 if late else 0.0, line_preempt=lp)
     finally:
         m.InMemoryMetricsStore.put_value_cluster_level = orig_put
+        m.InMemoryMetricsStore.bulk_add = orig_bulk_add
     rc = r.rc
     names = [n for _t, n, _m in r.received]
     v = None
@@ -309,11 +433,32 @@ def check_race(spec, ch, res):
             ft = max(e["t_end"] for e in r.log)
         else:
             ft = 0.0
+    late_cancel = False
+    if real and ft is not None and kind == "worker-dies" and last_element_done(sname, r.log, ft):
+        # the process died after it had done all of its work (every request of the last element answered): not a fault during the race,
+        # whichever of the failure notification and the Success answer reaches race control first
+        ft = None
+        late_cancel = True
+        res.count("worker_died_after_finishing_its_work")
+    if real and ft is not None:
+        # With the real race control actor several messages lie between "results computed, stored and printed" (BenchmarkComplete handled)
+        # and the Success answer.  A worker that dies or a user who cancels *after* the benchmark actor has handled BenchmarkComplete did
+        # not interfere with the race any more; a cancellation takes effect when the benchmark actor handles BenchmarkCancelled.
+        done_pos = rc.handled("BenchmarkComplete")
+        if kind == "cancel":
+            eff = rc.handled("BenchmarkCancelled")
+            if done_pos is not None and (eff is None or eff > done_pos):
+                ft = None
+                late_cancel = True
+                res.count("cancel_took_effect_after_the_race_had_completed")
+        elif kind == "worker-dies" and done_pos is not None and state.get("fault_pos", 0) > done_pos:
+            ft = None
+            res.count("worker_died_after_the_race_had_completed")
     injected = ft is not None
     want = "cancelled" if kind == "cancel" else "failed"
     if not injected:
         # the fault point was not reached on this schedule (e.g. fewer store writes): the race must then complete normally
-        if r.phase != "complete":
+        if r.phase != "complete" and not (late_cancel and r.phase in ("cancelled", "failed")):
             v = ("no-fault-but-not-complete", f"fault never fired, phase {r.phase}, {names}")
     else:
         if rc.first_terminal is None:
@@ -327,7 +472,7 @@ def check_race(spec, ch, res):
             v = ("wrong-terminal-message", f"expected {want}, got {rc.first_terminal[0]}: {names}")
         elif rc.first_terminal[1] - ft > BOUND_AFTER_FAULT:
             v = ("failure-notification-late", f"fault at {ft}, notification at {rc.first_terminal[1]}")
-        elif "BenchmarkComplete" in names and kind != "cancel" and not late:
+        elif "BenchmarkComplete" in names and kind != "cancel" and not late and not real:
             v = ("complete-after-failure", f"{names}")
         elif rc.summaries:
             v = ("results-printed", "summary report invoked although the race failed")
